@@ -160,3 +160,21 @@ Print Assumptions C06_emit_result_mapping_is_code.
 Theorem C06_emit_is_code : forall d p bestdep js tmp, Forall seq_ok js -> emit d p bestdep js = emit_code d p bestdep js tmp.
 Proof. exact emit_skel_tie. Qed.
 Print Assumptions C06_emit_is_code.
+
+(* ... and the hypothesis `seq_ok` holds for every journey the router emits (sequences are numbered from 1 and the
+   connections of a rebuilt, cleaned-up journey are connections of the data): every returned route IS the route the
+   declarations, the step-emission loop and the result assignments of reverse_journey.cpp compute as written now *)
+From TrV Require Import Proofs.EmitTieAnswers.
+Theorem C06_returned_routes_are_emitted_by_code : forall d s p acc egr fresh r used,
+  wf_data_b d = true -> wf_tables_b d p acc egr = true -> wf_params_b p = true ->
+  calc_single d (conn_set d s) p acc egr fresh = Ok (r, used) ->
+  exists bestdep js, r = emit d p bestdep js /\ forall tmp, r = emit_code d p bestdep js tmp.
+Proof. exact calc_single_emit_is_code. Qed.
+Print Assumptions C06_returned_routes_are_emitted_by_code.
+Theorem C06_alternatives_routes_are_emitted_by_code : forall d s p acc egr rs total,
+  wf_data_b d = true -> wf_tables_b d p acc egr = true -> wf_params_b p = true ->
+  alternatives d (conn_set d s) p acc egr = Ok (rs, total) ->
+  forall r, In r rs ->
+  exists p' bestdep js, r = emit d p' bestdep js /\ forall tmp, r = emit_code d p' bestdep js tmp.
+Proof. exact alternatives_emit_is_code. Qed.
+Print Assumptions C06_alternatives_routes_are_emitted_by_code.
